@@ -233,7 +233,8 @@ def r_cast(ctx):
     rid = 'R07.5'
     ctx.rule(rid, 'cast: accepted iff StructuralType::from(source) == StructuralType::from(target); emits the argument term unchanged')
     table = guards.load_table()
-    guards.compare(ctx, rid, ['<ast::Call as ast::AbstractSyntaxTree>::analyze'], table, 'Call::analyze (TypeCast guard)', guards.GUARD_FIELDS)
+    guards.compare(ctx, rid, ['<ast::Call as ast::AbstractSyntaxTree>::analyze'], table, 'Call::analyze (TypeCast guard)', guards.GUARD_FIELDS,
+                   rowsel=lambda path, r: any(c.endswith('=TypeCast') for c in r['conds'][:3]))
     fx = ctx.facts()
     fn = ctx.anchor(fx, '<ast::Call as ast::AbstractSyntaxTree>::analyze')
     seen = False
@@ -336,7 +337,7 @@ def r_layout_tables(ctx, rid, group=LAYOUT_GROUP, floor=30):
 def check(ctx):
     r_layout_tables(ctx, 'R07.10')
     from . import c04
-    c04.group_rule(ctx, 'R07.11', r"^(<types::\w+ as types::TypeDeconstructible>::\w+|types::TypeDeconstructible::is_unit|<(&?types::\w+|&?value::\w+|value::Destructor<'_>) as miniscript::iter::TreeLike>::as_node|types::UIntType::two_n|value::UIntValue::(get_type|is_of_type)|<value::UIntValue as std::convert::From<(u\d+|num::U256)>>::from)$", 'type deconstructors and the children of type / value tree nodes in order', 20)
+    c04.group_rule(ctx, 'R07.11', r"^(<(types|value)::[\w:]+(<[^>]*>)? as std::convert::(From|TryFrom)<.*>>::(from|try_from)(::\{closure#\d+\})*|<types::\w+ as types::TypeDeconstructible>::\w+|types::TypeDeconstructible::is_unit|<(&?types::\w+|&?value::\w+|value::Destructor<'_>) as miniscript::iter::TreeLike>::as_node|types::UIntType::two_n|value::UIntValue::(get_type|is_of_type)|<value::UIntValue as std::convert::From<(u\d+|num::U256)>>::from)$", 'type deconstructors and the children of type / value tree nodes in order', 20)
     r_value_to_structural(ctx)
     r_reconstruct(ctx)
     layout.r_btree(ctx, 'R07.1')
